@@ -46,6 +46,29 @@ def main():
         except OSError:
             pass
 
+    # ---- what is installed / how big the machine is
+    if tenv.get("_hide_modules"):
+        for name_ in tenv["_hide_modules"].split(","):
+            sys.modules[name_.strip()] = None          # `import name` raises ImportError, as on a machine without the package
+    if tenv.get("_small_machine"):
+        real_sysconf = os.sysconf
+
+        def small_sysconf(name):
+            if name in ("SC_AVPHYS_PAGES", "SC_PHYS_PAGES") or name in (os.sysconf_names.get("SC_AVPHYS_PAGES"), os.sysconf_names.get("SC_PHYS_PAGES")):
+                return 8192                                  # 32 MiB of 4 KiB pages
+            if name in ("SC_NPROCESSORS_ONLN", "SC_NPROCESSORS_CONF") or name in (os.sysconf_names.get("SC_NPROCESSORS_ONLN"), os.sysconf_names.get("SC_NPROCESSORS_CONF")):
+                return 1
+            return real_sysconf(name)
+        os.sysconf = small_sysconf
+        os.cpu_count = lambda: 1
+        if hasattr(os, "sched_getaffinity"):
+            os.sched_getaffinity = lambda pid=0: {0}
+        try:
+            import resource
+            resource.setrlimit(resource.RLIMIT_NOFILE, (256, resource.getrlimit(resource.RLIMIT_NOFILE)[1]))
+        except Exception:  # noqa
+            pass
+
     # ---- the clock seam: every clock function of the time module answers from a simulated clock owned by the trial
     clock = trial.get("clock", "natural")
     if clock != "natural":
